@@ -25,7 +25,7 @@ fn gen_fn_spec(t: &mut Tape, name: &str, tag: &str, deps_pool: &[Deps], mock_act
     let nb = if matches!(deps, Deps::NoDeps | Deps::Concrete) { 0 } else { t.weighted(&[3, 3, 2, 1]) };
     let mut bounds: Vec<usize> = vec![];
     for _ in 0..nb {
-        let b = t.choose(3);
+        let b = t.choose(5);
         if !bounds.contains(&b) {
             bounds.push(b);
         }
